@@ -11,6 +11,7 @@ import (
 
 	"verif/harness/internal/devx"
 	"verif/harness/internal/ev"
+	"verif/harness/internal/world"
 )
 
 // C16 — consumer-endpoint selection is the documented function of metadata.
@@ -32,6 +33,7 @@ var c16Requested = []string{"", provider.PostBinding, provider.RedirectBinding,
 type c16Case struct {
 	Shapes    []int  `json:"shapes"` // entry shape ids 0..99
 	Requested string `json:"requested"`
+	Transport string `json:"transport,omitempty"` // non-empty: end-to-end case through the SSO handler
 }
 
 func c16Entry(shape, pos int) md.IndexedEndpointType {
@@ -138,6 +140,16 @@ func runC16(ctx Ctx) int {
 		if err := loadReplay(ctx.Replay, &c); err != nil {
 			fmt.Println("replay:", err)
 			return 2
+		}
+		if c.Transport != "" {
+			world.PinClock()
+			class, clause, labels, detail := c16E2EOne(c.Shapes, c.Requested, c.Transport)
+			fmt.Printf("replay C16 end-to-end: %+v -> class=%s clause=%q labels=%v detail=%v\n", c, class, clause, labels, detail)
+			if clause != "" {
+				fmt.Printf("VIOLATION property=C16 replay=%s\n", ctx.Replay)
+				return 1
+			}
+			return 0
 		}
 		list := make([]md.IndexedEndpointType, len(c.Shapes))
 		for p, s := range c.Shapes {
